@@ -2853,8 +2853,9 @@ bn_calc_jsf(bn_p a, bn_p b, size_t jsf_arr_size,
 
 	while ((0 == bn_is_zero(&tmA) || 0 != d0) ||
 	    (0 == bn_is_zero(&tmB) || 0 != d1)) {
-		l0 = (((int8_t)tmA.num[0] + d0) & 0x7); /* mod 8. */
-		l1 = (((int8_t)tmB.num[0] + d1) & 0x7);
+		/* A zero bn has no initialized digits: do not read num[0]. */
+		l0 = (((int8_t)((0 != tmA.digits) ? tmA.num[0] : 0) + d0) & 0x7); /* mod 8. */
+		l1 = (((int8_t)((0 != tmB.digits) ? tmB.num[0] : 0) + d1) & 0x7);
 
 		if (0 != bn_digit_is_even(l0)) {
 			itm = 0;
